@@ -18,7 +18,8 @@ CHECKS = {
              "(TIMER) timer starters are preceded by cancel/guard on every path; (SIGN) counters decreased by received lengths are clamped before serialisation; (PREMISE) the rules the "
              "exemption table cites (C01-DUP, C07-LEN, C10-BOUND) hold; (NONE) Optional fields used in arithmetic are guarded (directly, by idiom, or through a paired sibling field); "
              "(SERIAL) no raw arithmetic / comparison on wrapping counters on the receive path; (DECODE) every decoder of the registry handles av.FFmpegError and frames without data never reach a decoder; "
-             "(SACK) a SACK acknowledging TSNs never assigned is ignored. "
+             "(SACK) a SACK acknowledging TSNs never assigned is ignored; (STATE) handshake chunks arriving in the wrong state change nothing; (SACKSIZE) the SACK built for thousands of isolated "
+             "out-of-order TSNs fits into one packet. "
              "It does not decide memory growth over histories, native-library behaviour or wall-clock time.",
         ref="DESIGN.md section 3 C05 and section 9"),
     "C12": dict(
@@ -35,8 +36,8 @@ CHECKS = {
         text="Decides the guard table (24 cells + createAnswer + closed latch), the next-state literals, that every write to signalingState and "
              "the four description slots is dominated by __validate_description (and nothing called earlier may write them), that the m-line "
              "match is order-sensitive, that close() latches and sets signalingState to closed before suspending, the description-slot updates per type, and that the per-section structural checks reject "
-             "defective audio / video / application sections alike whatever the connection has been through before (history domain over the fields the check reads), and that the "
-             "RTCSessionDescription constructor accepts exactly the four SDP types. These determine the state machine for all call sequences "
+             "defective audio / video / application sections alike whatever the connection has been through before (history domain over the fields the check reads), that the "
+             "RTCSessionDescription constructor accepts exactly the four SDP types, and which of createOffer / createAnswer the implicit setLocalDescription() calls in each state. These determine the state machine for all call sequences "
              "over the property's alphabet; pranswer/rollback and side effects outside the five slots are not decided.",
         ref="DESIGN.md section 3 C14"),
 }
@@ -46,7 +47,8 @@ CHECKS["C19"] = dict(
     text="Decides the structural core of 'nothing left running': every awaited asyncio.Event is set on every exit of its setter (task bodies: "
          "also when any await raises), stop() orders wait-started / cancel / wait-exited, every stored task, timer or thread handle has a "
          "cancel/join/await reachable from its owner's stop(), close() stops an object of every stoppable class and finishes its state update; close() evaluated on bundling layouts stops every transceiver, the SCTP transport and every "
-         "DTLS / ICE transport reachable from them; pyOpenSSL calls on the DTLS stop() path are inside a handler for SSL.Error; once closed the aggregated states latch on `closed` and stay silent; every data channel "
+         "DTLS / ICE transport reachable from them; pyOpenSSL calls on the DTLS stop() path are inside a handler for SSL.Error; `closed` is final for the ICE transport and a connect() completing after stop() is undone; "
+         "RTCSctpTransport.stop() always runs the CLOSED transition; public methods that create objects are fenced by the closed check; __connect() starts media only over a connected DTLS transport; once closed the aggregated states latch on `closed` and stay silent; every data channel "
          "container is drained; a receiver that was never started still ends its remote track. "
          "It does not decide bounded-time completion under every interleaving or the absence of events after close.",
     ref="DESIGN.md section 3 C19")
@@ -96,7 +98,7 @@ CHECKS["C18"] = dict(
     technique="data-dependence and guard (must-event) rules, serial qualifier analysis, grid evaluation of fraction_lost against RFC 3550 A.3, interval analysis of the packed report fields",
     text="Decides: the reported highest sequence includes wrap cycles and the cycle counter accumulates and only advances for in-order packets; timestamp differences are reduced "
          "modulo 2^32; fraction_lost equals the RFC formula on a grid incl. duplicates/late arrivals; packets_lost, highest_sequence, jitter and lsr provably fit "
-         "their RTCP fields; dlsr is 0 or the scaled delay and within 32 bits on a grid of delays; StreamStatistics equals an RFC 3550 reference on enumerated packet sequences (losses, duplicates, late copies of the newest packet, wraps) and the report block _run_rtcp builds from it carries those values through serialise / parse. Numeric equality over histories is not decided.",
+         "their RTCP fields; dlsr is 0 or the scaled delay and within 32 bits on a grid of delays; StreamStatistics equals an RFC 3550 reference on enumerated packet sequences (losses, duplicates, late copies of the newest packet, wraps) and the report block _run_rtcp builds from it carries those values through serialise / parse; statistics are fed with the packet as it arrived (before the RTX unwrap). Numeric equality over histories is not decided.",
     ref="DESIGN.md section 3 C18")
 
 CHECKS["C01"] = dict(
@@ -107,7 +109,8 @@ CHECKS["C01"] = dict(
          "sizes around the fragment boundary; the stream id used for delivery is the chunk's; stream resets clear the per-stream tables; TSN / stream-sequence "
          "arithmetic is wrap-safe (C17 rule set); for every arrival order (plus a duplicate) of interleaved messages on two streams _receive_data_chunk delivers each message "
          "once, intact, in order and leaves nothing queued; abandonment / FORWARD-TSN never touch other messages (C06 rules); lost chunks keep being retransmitted and the receive state is only initialised by the handshake (C02 rules); sender and receiver closed into a loop deliver every reliable message once, "
-         "intact and in order under every single fault and every double loss of the enumerated workload (113 schedules, TSN and stream-sequence wraps included). Arrival orders beyond the enumerated families "
+         "intact and in order under every single fault and every double loss of the enumerated workload (115 schedules, TSN and stream-sequence wraps included); sequence numbers are allocated "
+         "without a suspension point in between; data sent once a channel reports open is delivered even when it overtakes the announcement. Arrival orders beyond the enumerated families "
          "are not decided.",
     ref="DESIGN.md section 3 C01")
 CHECKS["C04"] = dict(
@@ -117,7 +120,8 @@ CHECKS["C04"] = dict(
          "CONNECTED; the fingerprint policy equals 'at least one supported, all supported match, case-insensitive' on 900 enumerated lists; both roles derive "
          "the RFC 5764 mirror-image key/salt slices for the three profiles; SRTP failures deliver nothing; the first-byte demultiplexer equals RFC 7983 for all 256 values and "
          "is_rtcp separates RTCP from negotiable RTP payload types; one turn of the receive pump, evaluated for every datagram class x transport state, delivers exactly the authenticated and parsed packets - "
-         "each RTCP packet of a compound to each recipient once - and application data only when connected. It does not decide what OpenSSL/libsrtp do.",
+         "each RTCP packet of a compound to each recipient once - and application data only when connected; start() evaluated over handshake / identity / key outcomes connects and starts the pump only when all three succeeded; the fingerprint hash table follows RFC 8122 "
+         "and the DTLS read size covers the records written. It does not decide what OpenSSL/libsrtp do.",
     ref="DESIGN.md section 3 C04")
 CHECKS["C08"] = dict(
     technique="reader/writer struct-format and field-order extraction; finite-domain evaluation of parameter and padding arithmetic over all length residues; must-event guard on the checksum gate; registry constants",
@@ -172,7 +176,8 @@ CHECKS["C02"] = dict(
          "producer of the three queues starts its consumer on every exit, accepted SACKs reach flush and transmit; cwnd never drops below one MTU; the receive loop cannot be killed by a "
          "repeated chunk (timer typestate) or a negative window (sign rule); wrap-safe sequence arithmetic; the receive state is only re-initialised under an association-state guard; nothing complete stays queued for the enumerated arrival orders; the sender's real transmit / SACK / T3 / abandon code evaluated on loss scenarios (reliable and partially "
          "reliable messages, fast-retransmit and T3 paths) never counts more bytes in flight than are outstanding and transmits new data once everything is acknowledged; a SACK beyond the TSNs assigned is ignored; "
-         "the closed sender/receiver loop drains under every single fault and double loss of the enumerated workload; per-channel reliability parameters do not leak between messages. It does not decide "
+         "the closed sender/receiver loop drains under every single fault and double loss of the enumerated workload; per-channel reliability parameters do not leak between messages and channel announcements are always reliable; association set-up closed over both ends survives the loss or late duplication of "
+         "each handshake datagram. It does not decide "
          "delivery in bounded time or absence of stalls over all fault histories.",
     ref="DESIGN.md section 3 C02")
 
